@@ -416,7 +416,21 @@ def main():
     replay_path = None
     if new_viols:
         replay_path = os.path.join(V, "replays", "%s-%d-%s.json" % (pid, seed, tier))
-        json.dump({"property": pid, "seed": seed, "tier": tier, "kind": "failing-input",
+        # a smaller input with the same kind of failure, found by the harness (bounded search; the full cases stay)
+        minimized = None
+        try:
+            sdir = os.path.join(rundir, "shrink")
+            os.makedirs(sdir, exist_ok=True)
+            json.dump({"cases": [new_viols[0]["case"]]}, open(os.path.join(sdir, "one.json"), "w"))
+            rc_s, _ = run([os.path.join(BUILD, "harness"), "-prop", pid, "-tier", tier, "-seed", str(seed), "-out", sdir,
+                           "-replay", os.path.join(sdir, "one.json"), "-shrink"], timeout=120)
+            sv = json.load(open(os.path.join(sdir, "stats.json"))).get("violations") or []
+            if sv and sv[0].get("minimized_case"):
+                minimized = {"case": sv[0]["minimized_case"], "what": sv[0].get("minimized_what"),
+                             "oracle_evaluations": sv[0].get("minimization_evaluations")}
+        except Exception:
+            minimized = None
+        json.dump({"property": pid, "seed": seed, "tier": tier, "kind": "failing-input", "minimized": minimized,
                    "what": new_viols[0]["what"], "cases": [v["case"] for v in new_viols[:20]],
                    "violations": new_viols[:20], "broken_ties": [b[1] for b in broken],
                    "replay_cmd": "./check %s --replay <this file>" % pid}, open(replay_path, "w"), indent=1)
